@@ -122,7 +122,7 @@ PROPS = {
                       'and code-separator position - covering pushes and the 520-byte limit, constants, flow control, all '
                       'stack operations, 4-byte-limited arithmetic and comparisons, the five hash opcodes, CHECKSIG(VERIFY) '
                       'with signature removal and CODESEPARATOR, NOPs with the discourage flag, disabled/reserved opcodes in '
-                      'both branches, the 201-operation and 1000-item limits. CHECKMULTISIG is excluded.',
+                      'both branches, the 201-operation and 1000-item limits. CHECKMULTISIG: containment, operation counting, stack shrinkage and the NULLDUMMY rule (the extra element must be the empty vector, elements below it untouched) are proved; its signature-matching loop is not specified against a reference.',
         'level_note': 'trusted: pyvc, z3/cvc5, assumed _CheckSig / FindAndDelete / bn2vch contracts, specs/interp.py',
         'design_ref': 'DESIGN.md 5 C06',
         'explanation': 'interpreter step contracts',
@@ -260,7 +260,7 @@ PROPS = {
                       'and rejects unknown names without a state change; CBitcoinAddress(text) returns an address of the right '
                       'class with the decoded payload or raises CBitcoinAddressError and nothing else (every string); '
                       'from_scriptPubKey of the four templates yields the prescribed class, version/witness version and payload; '
-                      'to_scriptPubKey rebuilds exactly the template script. Bounded: the text codecs and text round trips.',
+                      'to_scriptPubKey rebuilds exactly the template script; from_bytes / from_pubkey without an explicit version take the prefix of the chain selected at call time; <33-byte key> CHECKSIG converts to HASH160(key). Bounded: the text codecs and text round trips. KNOWN FINDING (not repairable without editing a test): the bare UNCOMPRESSED pubkey branch hashes 64 of the 65 key bytes.',
         'level_note': 'trusted: pyvc, z3/cvc5, assumed codec contracts (bounded-checked), specs/addr.py',
         'design_ref': 'DESIGN.md 5 C12',
         'explanation': 'address contracts',
